@@ -2899,4 +2899,775 @@ theorem copyLike_result (w : World) (t s : Nat) (w' : World) (hsc : Scoped w) (h
         rw [hobs.1, hobs.2]; exact v1
 
 
+
+/-! ### well-formedness along histories -/
+
+/-- every stream is well formed -/
+def WFAll (w : World) : Prop := ∀ i, i < w.nS → WFImol w (w.strs i).imol
+
+/-- indexer and array objects that existed are not modified -/
+def StructFrame (w w' : World) : Prop := ∀ x, x < w.next → w'.imols x = w.imols x ∧ w'.arrs x = w.arrs x
+
+theorem StructFrame.of_writes {w w' : World} {Ws : Nat → Prop} (h : Writes w w' none' Ws) : StructFrame w w' :=
+  fun x hx => ⟨(h.agree x hx (fun h => h)).2.2.2.2.2, (h.agree x hx (fun h => h)).2.2.2.2.1⟩
+
+theorem StructFrame.of_eq {w w' : World} (hi : w'.imols = w.imols) (ha : w'.arrs = w.arrs) : StructFrame w w' :=
+  fun x _ => ⟨by rw [hi], by rw [ha]⟩
+
+theorem wf_of_structFrame {w w' : World} (hsf : StructFrame w w') (hsc : Scoped w) (j : Nat) (hj : j < w.nS)
+    (hslot : (w'.strs j).imol = (w.strs j).imol) (hwf : WFImol w (w.strs j).imol) :
+    WFImol w' (w'.strs j).imol := by
+  rw [hslot]
+  have hi := hsc j hj _ (mem_fp_imol w j)
+  unfold WFImol at hwf ⊢
+  rw [(hsf _ hi).1]
+  cases hm : w.imols (w.strs j).imol with
+  | chem ph r => trivial
+  | mat ps a =>
+    rw [hm] at hwf
+    simp only
+    rw [(hsf a (hsc j hj a (mem_fp_mat hm).1)).2]
+    exact hwf
+
+/-- all old streams keep their slots and well-formedness; it remains to look at the new one -/
+theorem wfAll_of_fresh {w w' : World} (hsc : Scoped w) (hwf : WFAll w) (hw : Writes w w' none' none')
+    (hnS : w'.nS = w.nS + 1) (hnew : WFImol w' (w'.strs w.nS).imol) : WFAll w' := by
+  intro j hj
+  by_cases hjo : j < w.nS
+  · apply wf_of_structFrame (StructFrame.of_writes hw) hsc j hjo _ (hwf j hjo)
+    rw [hw.strs j hjo (fun h => h)]
+  · have : j = w.nS := by omega
+    subst this; exact hnew
+
+theorem wf_copyImol (w : World) (im : Nat) (hwf : WFImol w im) :
+    WFImol (w.copyImol im).1 (w.copyImol im).2 := by
+  unfold World.copyImol
+  cases hm : w.imols im with
+  | chem ph r => simp [WFImol]
+  | mat ps a =>
+    simp only [WFImol, hm] at hwf
+    simp [WFImol, newRows_ids, hwf.1, hwf.2.1]
+    exact List.nodup_range'
+
+theorem wf_blankMat (w : World) (l : List Ph) : WFImol (w.blankMat (normPh l)).1 (w.blankMat (normPh l)).2 := by
+  unfold World.blankMat
+  simp [WFImol, newRows_ids]
+  exact ⟨normPh_congr _ _ (mem_normPh _), List.nodup_range'⟩
+
+theorem wf_blankFor (w : World) (l : List Ph) : WFImol (w.blankFor l).1 (w.blankFor l).2 := by
+  unfold World.blankFor
+  split
+  · simp [WFImol, World.blankChem]
+  · exact wf_blankMat w _
+
+
+theorem wfAll_of_struct_eq {w w' : World} (hwf : WFAll w) (hi : w'.imols = w.imols) (ha : w'.arrs = w.arrs)
+    (hs : ∀ j, (w'.strs j).imol = (w.strs j).imol) (hn : w'.nS = w.nS) : WFAll w' := by
+  intro j hj
+  rw [hs j]
+  exact wf_congr (hwf j (by omega)) hi ha
+
+/-- with equal phase tuples `MaterialIndexer.copy_like(MaterialIndexer)` only writes row contents -/
+theorem matCopyFromMat_struct_same (w : World) (same : Bool) (tim : Nat) (tpkg : List Nat) (sim : Nat)
+    (spkg : List Nat) (w' : World) (hpq : w.phasesOf tim = w.phasesOf sim)
+    (h : w.matCopyFromMat same tim tpkg sim spkg = .ok w') :
+    w'.imols = w.imols ∧ w'.arrs = w.arrs ∧ w'.strs = w.strs ∧ w'.nS = w.nS := by
+  unfold World.matCopyFromMat at h
+  split at h
+  · cases h; exact ⟨rfl, rfl, rfl, rfl⟩
+  · simp only [hpq, if_true] at h
+    split at h
+    · cases h; simp
+    · split at h
+      · cases h; simp
+      · cases h
+
+/-- structure after `MaterialIndexer.copy_like(ChemicalIndexer)`: the target indexer stays well formed,
+nothing else is touched, and nothing at all when the target already has a row for the phase -/
+theorem matCopyFromChem_wf (w : World) (same : Bool) (tim : Nat) (tpkg : List Nat) (sr : Nat) (sp : Ph)
+    (spkg : List Nat) (w' : World) (ps : List Ph) (a : Nat) (hm : w.imols tim = .mat ps a)
+    (hnp : normPh ps = ps) (hlen : (w.arrs a).length = ps.length) (hnd : (w.arrs a).Nodup)
+    (hlt : ∀ r ∈ w.arrs a, r < w.next)
+    (h : w.matCopyFromChem same tim tpkg sr sp spkg = .ok w') :
+    WFImol w' tim ∧ w'.strs = w.strs ∧ w'.nS = w.nS ∧ (∀ y, y ≠ tim → w'.imols y = w.imols y) ∧
+    (∀ y, y ≠ a → w'.arrs y = w.arrs y) ∧
+    (phIdx ps sp ≠ none → w'.imols = w.imols ∧ w'.arrs = w.arrs) := by
+  have hU := matCopyFromChem_spec _ _ _ _ _ _ _ _ h
+  unfold World.matCopyFromChem at h
+  simp only at h
+  have hrows0 : w.rowIdsOf tim = w.arrs a := by simp [World.rowIdsOf, hm]
+  rw [hrows0] at h
+  generalize hw1 : w.clearRows (w.arrs a) = w1 at h
+  have hm1 : w1.imols tim = .mat ps a := by rw [← hw1]; simpa using hm
+  have ha1 : w1.arrs = w.arrs := by rw [← hw1]; simp
+  have hi1 : w1.imols = w.imols := by rw [← hw1]; simp
+  have hn1 : w1.next = w.next := by rw [← hw1]; simp
+  have hph1 : w1.phasesOf tim = ps := by simp [World.phasesOf, hm1]
+  rw [hph1] at h
+  have hE := expand_spec w1 tim [sp] ps a hm1 hnp (by rw [ha1]; exact hlen) (by rw [ha1]; exact hnd)
+    (by rw [ha1, hn1]; exact hlt)
+  refine ⟨?_, hU.strs, hU.nS, hU.imols_ne, (hU.mat ps a hm).2.1, ?_⟩
+  · -- well formed afterwards
+    have fin : ∀ w2 : World, WFImol w2 tim →
+        (match phIdx (w2.phasesOf tim) sp with
+          | none => Except.error Err.undefinedPhase
+          | some k =>
+            if (same || remapOk tpkg spkg (w2.rows sr)) = true then
+              Except.ok (w2.setRow ((w2.rowIdsOf tim).getD k tim) (w2.rows sr))
+            else Except.error Err.undefinedChemical) = Except.ok w' → WFImol w' tim := by
+      intro w2 hwf2 h2
+      cases hk : phIdx (w2.phasesOf tim) sp with
+      | none => simp [hk] at h2
+      | some k =>
+        simp only [hk] at h2
+        by_cases hc : (same || remapOk tpkg spkg (w2.rows sr)) = true
+        · simp only [hc, if_true, Except.ok.injEq] at h2
+          subst h2
+          exact wf_congr hwf2 (by simp) (by simp)
+        · simp [hc] at h2
+    apply fin _ _ h
+    split
+    · simp only [WFImol, hE.1]
+      exact ⟨normPh_congr _ _ (mem_normPh _), hE.2.1, hE.2.2.1⟩
+    · simp only [WFImol, hm1, ha1]
+      exact ⟨hnp, hlen, hnd⟩
+  · intro hsome
+    have hnn : (phIdx ps sp).isNone = false := by
+      cases hx : phIdx ps sp with
+      | none => exact absurd hx hsome
+      | some k => rfl
+    simp only [hnn, Bool.false_eq_true, if_false] at h
+    cases hk : phIdx (w1.phasesOf tim) sp with
+    | none => simp [hk] at h
+    | some k =>
+      simp only [hk] at h
+      by_cases hc : (same || remapOk tpkg spkg (w1.rows sr)) = true
+      · simp only [hc, if_true, Except.ok.injEq] at h
+        subst h
+        simp [hi1, ha1]
+      · simp [hc] at h
+
+/-- the same for a multi-phase source: nothing structural happens when the phase tuples are equal or compatible -/
+theorem matCopyFromMat_wf (w : World) (same : Bool) (tim : Nat) (tpkg : List Nat) (sim : Nat)
+    (spkg : List Nat) (w' : World) (ps : List Ph) (a : Nat) (hm : w.imols tim = .mat ps a)
+    (hnp : normPh ps = ps) (hlen : (w.arrs a).length = ps.length) (hnd : (w.arrs a).Nodup)
+    (hlt : ∀ r ∈ w.arrs a, r < w.next)
+    (h : w.matCopyFromMat same tim tpkg sim spkg = .ok w') :
+    WFImol w' tim ∧ w'.strs = w.strs ∧ w'.nS = w.nS ∧ (∀ y, y ≠ tim → w'.imols y = w.imols y) ∧
+    (∀ y, y ≠ a → w'.arrs y = w.arrs y) ∧
+    (ps = w.phasesOf sim → w'.imols = w.imols ∧ w'.arrs = w.arrs) := by
+  have hU := matCopyFromMat_spec _ _ _ _ _ _ _ h
+  have hp0 : w.phasesOf tim = ps := by simp [World.phasesOf, hm]
+  have hwf0 : WFImol w tim := by simp only [WFImol, hm]; exact ⟨hnp, hlen, hnd⟩
+  refine ⟨?_, hU.strs, hU.nS, hU.imols_ne, (hU.mat ps a hm).2.1, ?_⟩
+  · by_cases hpq : ps = w.phasesOf sim
+    · obtain ⟨e1, e2, _⟩ := matCopyFromMat_struct_same w same tim tpkg sim spkg w' (by rw [hp0]; exact hpq) h
+      exact wf_congr hwf0 e1 e2
+    · unfold World.matCopyFromMat at h
+      split at h
+      · cases h; exact hwf0
+      · simp only [hp0, hpq, if_false] at h
+        have hE := expand_spec w tim (w.phasesOf sim) ps a hm hnp hlen hnd hlt
+        have hkey : ∃ ps1, (if compatPh ps (w.phasesOf sim) then w else w.expand tim (w.phasesOf sim)).imols tim
+              = .mat ps1 a ∧ normPh ps1 = ps1 ∧
+            ((if compatPh ps (w.phasesOf sim) then w else w.expand tim (w.phasesOf sim)).arrs a).length = ps1.length ∧
+            ((if compatPh ps (w.phasesOf sim) then w else w.expand tim (w.phasesOf sim)).arrs a).Nodup := by
+          split
+          · exact ⟨ps, hm, hnp, hlen, hnd⟩
+          · exact ⟨_, hE.1, normPh_congr _ _ (mem_normPh _), hE.2.1, hE.2.2.1⟩
+        generalize (if compatPh ps (w.phasesOf sim) then w else w.expand tim (w.phasesOf sim)) = w1 at h hkey
+        obtain ⟨ps1, k1, k2, k3, k4⟩ := hkey
+        split at h
+        · obtain ⟨f1, f2, _⟩ := assignByPhase_fields _ _ _ _ _ w' h
+          simp only [WFImol, f1, f2, clearRows_imols, clearRows_arrs, k1]
+          exact ⟨k2, k3, k4⟩
+        · cases h
+  · intro hpq
+    obtain ⟨e1, e2, _⟩ := matCopyFromMat_struct_same w same tim tpkg sim spkg w' (by rw [hp0]; exact hpq) h
+    exact ⟨e1, e2⟩
+
+
+theorem arrShared_false {w : World} {t a : Nat} {ps : List Ph} (hm : w.imols (w.strs t).imol = .mat ps a)
+    (h : w.arrShared t = false) (j : Nat) (hj : j < w.nS) (hne : (w.strs j).imol ≠ (w.strs t).imol)
+    (qs : List Ph) (b : Nat) (hmj : w.imols (w.strs j).imol = .mat qs b) : b ≠ a := by
+  unfold World.arrShared at h
+  simp only [hm] at h
+  rw [List.any_eq_false] at h
+  have := h j (by simp [hj])
+  simp [hne, hmj] at this
+  exact fun e => this e.symm
+
+/-- after an in-place update of the target's indexer that kept it well formed, every stream is well formed,
+provided the update was purely about contents or no other indexer shares the target's array -/
+theorem wfAll_of_imol_update {w w1 : World} {t a : Nat} {ps : List Ph} (hwf : WFAll w)
+    (hm : w.imols (w.strs t).imol = .mat ps a) (hwf1 : WFImol w1 (w.strs t).imol) (hstrs : w1.strs = w.strs)
+    (hnS : w1.nS = w.nS) (hine : ∀ y, y ≠ (w.strs t).imol → w1.imols y = w.imols y)
+    (hane : ∀ y, y ≠ a → w1.arrs y = w.arrs y)
+    (hcase : (w1.imols = w.imols ∧ w1.arrs = w.arrs) ∨ w.arrShared t = false) : WFAll w1 := by
+  rcases hcase with ⟨e1, e2⟩ | hns
+  · exact wfAll_of_struct_eq hwf e1 e2 (fun j => by rw [hstrs]) hnS
+  · intro j hj
+    rw [hnS] at hj
+    rw [hstrs]
+    by_cases hjt : (w.strs j).imol = (w.strs t).imol
+    · rw [hjt]; exact hwf1
+    · have hw := hwf j hj
+      unfold WFImol at hw ⊢
+      rw [hine _ hjt]
+      cases hmj : w.imols (w.strs j).imol with
+      | chem ph r => trivial
+      | mat qs b =>
+        rw [hmj] at hw
+        simp only
+        rw [hane b (arrShared_false hm hns j hj hjt qs b hmj)]
+        exact hw
+
+theorem wfAll_tcCopyLike {w1 : World} (t s : Nat) (h : WFAll w1) : WFAll (w1.tcCopyLike t s) :=
+  wfAll_of_struct_eq h (by simp [World.tcCopyLike]) (by simp [World.tcCopyLike])
+    (fun j => by simp [World.tcCopyLike]) (by simp [World.tcCopyLike])
+
+theorem phIdx_single_ne {ps : List Ph} {sp : Ph} (h : phIdx ps sp = none) : ps ≠ [sp] := by
+  intro e; rw [e, phIdx_single] at h; cases h
+
+theorem wfAll_copyLike (w : World) (t s : Nat) (w' : World) (hsc : Scoped w) (hwf : WFAll w) (ht : t < w.nS)
+    (hs : s < w.nS) (h : w.copyLike t s = .ok w') : WFAll w' := by
+  unfold World.copyLike at h
+  simp only at h
+  split at h
+  · cases h
+  · next hg =>
+    cases hmt : w.imols (w.strs t).imol with
+    | chem tph trow =>
+      cases hms : w.imols (w.strs s).imol with
+      | chem sph srow =>
+        simp only [hmt, hms] at h
+        split at h
+        · cases h; exact wfAll_tcCopyLike t s hwf
+        · obtain ⟨w1, h1, rfl⟩ := ofExcept_bind_ok _ _ _ h
+          obtain ⟨_, f1, f2, f3, f4, _⟩ := chemCopyLike_spec _ _ _ _ _ _ _ _ _ h1
+          exact wfAll_tcCopyLike t s (wfAll_of_struct_eq hwf f1 f2 (fun j => by rw [f3]) f4)
+      | mat qs sa =>
+        simp only [hmt, hms] at h
+        split at h
+        · next q =>
+          obtain ⟨w1, h1, rfl⟩ := ofExcept_bind_ok _ _ _ h
+          obtain ⟨_, f1, f2, f3, f4, _⟩ := chemCopyLike_spec _ _ _ _ _ _ _ _ _ h1
+          exact wfAll_tcCopyLike t s (wfAll_of_struct_eq hwf (by rw [f1]; simp) (by rw [f2]; simp)
+            (fun j => by rw [f3]; simp) (by rw [f4]; simp))
+        · obtain ⟨w3, h3, rfl⟩ := ofExcept_bind_ok _ _ _ h
+          apply wfAll_tcCopyLike
+          have hws := hwf s hs
+          simp only [WFImol, hms] at hws
+          have hB := blankMat_spec w (normPh qs)
+          have hwfB := wf_blankMat w qs
+          generalize w.blankMat (normPh qs) = b at h3 hB hwfB
+          obtain ⟨w1, im⟩ := b
+          simp only at h3 hB hwfB
+          have himfresh : w.next ≤ im := (hB.fresh im (by simp [World.fpImol])).1
+          have hSim : (w.strs s).imol < w.next := hsc s hs _ (mem_fp_imol w s)
+          have hph : (w1.setStr t { w.strs t with imol := im }).phasesOf im =
+              (w1.setStr t { w.strs t with imol := im }).phasesOf (w.strs s).imol := by
+            have e1 : (w1.setStr t { w.strs t with imol := im }).phasesOf im = normPh qs := by
+              have := hB.phases; simpa [World.phasesOf] using this
+            have e2 : w1.imols (w.strs s).imol = w.imols (w.strs s).imol :=
+              (hB.writes.agree _ hSim (fun h => h)).2.2.2.2.2
+            rw [e1]; simp [World.phasesOf, e2, hms, hws.1]
+          obtain ⟨g1, g2, g3, g4⟩ := matCopyFromMat_struct_same _ _ _ _ _ _ _ hph h3
+          intro j hj
+          rw [g4] at hj
+          simp only [setStr_nS, hB.nS] at hj
+          by_cases hjt : j = t
+          · subst hjt
+            rw [g3]; simp only [setStr_strs, upd_same]
+            exact wf_congr hwfB (by rw [g1]; simp) (by rw [g2]; simp)
+          · have hsf : StructFrame w w3 := by
+              intro x hx
+              have := hB.writes.agree x hx (fun h => h)
+              exact ⟨by rw [g1]; simp; exact this.2.2.2.2.2, by rw [g2]; simp; exact this.2.2.2.2.1⟩
+            apply wf_of_structFrame hsf hsc j hj _ (hwf j hj)
+            rw [g3]; simp [upd_ne _ _ _ _ hjt, hB.strs]
+    | mat ps ta =>
+      have hwt := hwf t ht
+      simp only [WFImol, hmt] at hwt
+      obtain ⟨hnp, hlen, hnd⟩ := hwt
+      have hlt : ∀ r ∈ w.arrs ta, r < w.next := fun r hr => hsc t ht r ((mem_fp_mat hmt).2 r hr)
+      have hpT : w.phasesOf (w.strs t).imol = ps := by simp [World.phasesOf, hmt]
+      cases hms : w.imols (w.strs s).imol with
+      | chem sph srow =>
+        simp only [hmt, hms] at h
+        obtain ⟨w1, h1, rfl⟩ := ofExcept_bind_ok _ _ _ h
+        apply wfAll_tcCopyLike
+        obtain ⟨k1, k2, k3, k4, k5, k6⟩ := matCopyFromChem_wf w _ _ _ _ _ _ w1 ps ta hmt hnp hlen hnd hlt h1
+        apply wfAll_of_imol_update hwf hmt k1 k2 k3 k4 k5
+        cases hx : phIdx ps (w.phs sph) with
+        | some k => exact Or.inl (k6 (by rw [hx]; simp))
+        | none =>
+          right
+          have hdiff : (w.phasesOf (w.strs t).imol != w.phasesOf (w.strs s).imol) = true := by
+            rw [hpT]; simp [World.phasesOf, hms]; exact phIdx_single_ne hx
+          simpa [hdiff] using hg
+      | mat qs sa =>
+        simp only [hmt, hms] at h
+        obtain ⟨w1, h1, rfl⟩ := ofExcept_bind_ok _ _ _ h
+        apply wfAll_tcCopyLike
+        obtain ⟨k1, k2, k3, k4, k5, k6⟩ := matCopyFromMat_wf w _ _ _ _ _ w1 ps ta hmt hnp hlen hnd hlt h1
+        apply wfAll_of_imol_update hwf hmt k1 k2 k3 k4 k5
+        by_cases hpq : ps = w.phasesOf (w.strs s).imol
+        · exact Or.inl (k6 hpq)
+        · right
+          have hdiff : (w.phasesOf (w.strs t).imol != w.phasesOf (w.strs s).imol) = true := by
+            rw [hpT]; simpa using hpq
+          simpa [hdiff] using hg
+
+
+theorem wfAll_init : WFAll World.init := by
+  intro i hi; simp [World.init] at hi
+
+theorem wfAll_link (w : World) (t s : Nat) (f p tp : Bool) (w' : World) (hwf : WFAll w) (ht : t < w.nS)
+    (hs : s < w.nS) (h : w.link t s f p tp = .ok w') : WFAll w' := by
+  unfold World.link at h
+  -- every case ends with one write to the indexer object of the target, after an optional change of its `tc` slot
+  have key : ∀ (w1 : World) (m : Imol), w1.imols = w.imols → w1.arrs = w.arrs → w1.nS = w.nS →
+      (∀ j, (w1.strs j).imol = (w.strs j).imol) →
+      WFImol (w1.setImol (w.strs t).imol m) (w.strs t).imol → WFAll (w1.setImol (w.strs t).imol m) := by
+    intro w1 m hi ha hn hsl hnew j hj
+    simp only [setImol_nS, hn] at hj
+    simp only [setImol_strs, hsl]
+    by_cases hjt : (w.strs j).imol = (w.strs t).imol
+    · rw [hjt]; exact hnew
+    · have := hwf j hj
+      unfold WFImol at this ⊢
+      simp only [setImol_imols, upd_ne _ _ _ _ hjt, setImol_arrs, hi, ha]
+      exact this
+  have hw1 : ∀ (c : Bool), (if c then w.setStr t { w.strs t with tc := (w.strs s).tc } else w).imols = w.imols ∧
+      (if c then w.setStr t { w.strs t with tc := (w.strs s).tc } else w).arrs = w.arrs ∧
+      (if c then w.setStr t { w.strs t with tc := (w.strs s).tc } else w).nS = w.nS ∧
+      ∀ j, ((if c then w.setStr t { w.strs t with tc := (w.strs s).tc } else w).strs j).imol = (w.strs j).imol := by
+    intro c
+    cases c
+    · simp
+    · refine ⟨rfl, rfl, rfl, ?_⟩
+      intro j
+      by_cases hj : j = t
+      · subst hj; simp
+      · simp [upd_ne _ _ _ _ hj]
+  cases hmt : w.imols (w.strs t).imol with
+  | chem tph trow =>
+    cases hms : w.imols (w.strs s).imol with
+    | mat qs sa => simp [hmt, hms] at h
+    | chem sph srow =>
+      simp only [hmt, hms] at h
+      split at h
+      · cases h
+      · cases h
+        obtain ⟨a1, a2, a3, a4⟩ := hw1 tp
+        exact key _ _ a1 a2 a3 a4 (by simp [WFImol])
+  | mat ps ta =>
+    cases hms : w.imols (w.strs s).imol with
+    | chem sph srow => simp [hmt, hms] at h
+    | mat qs sa =>
+      simp only [hmt, hms] at h
+      split at h
+      · cases h
+      · next hdom =>
+        cases h
+        obtain ⟨a1, a2, a3, a4⟩ := hw1 tp
+        apply key _ _ a1 a2 a3 a4
+        have hwt := hwf t ht
+        have hws := hwf s hs
+        simp only [WFImol, hmt] at hwt
+        simp only [WFImol, hms] at hws
+        simp only [WFImol, setImol_imols, upd_same, setImol_arrs, a2]
+        cases f
+        · simpa using hwt
+        · have hpq : ps = qs := by
+            simp at hdom
+            exact hdom.2
+          simp only [if_true]
+          rw [hpq]
+          exact hws
+
+theorem wfAll_step (w : World) (op : Op) (w' : World) (hsc : Scoped w) (hwf : WFAll w)
+    (h : w.step op = .ok w') : WFAll w' := by
+  have hall : (op.ids.all fun x => decide (x < w.nS)) = true := by
+    unfold World.step at h
+    split at h
+    · assumption
+    · cases h
+  have hids : ∀ i ∈ op.ids, i < w.nS := by simpa using hall
+  simp only [World.step, hall, if_true] at h
+  cases op with
+  | new a =>
+    simp only [World.exec] at h
+    cases hc : w.ctor a with
+    | error e => simp [hc, Res.ofExcept] at h
+    | ok p =>
+      simp [hc, Res.ofExcept] at h
+      subst h
+      obtain ⟨hw, _, hn, _⟩ := writes_ctor w a p.1 p.2 hc
+      apply wfAll_of_fresh hsc hwf hw hn
+      have hf : a.flowsOk = true := by
+        cases hf : a.flowsOk with
+        | true => rfl
+        | false => simp [World.ctor, hf] at hc
+      cases hm : a.multi with
+      | true =>
+        simp only [World.ctor, hf, hm, Bool.not_true, Bool.false_eq_true, if_false, if_true, Except.ok.injEq] at hc
+        rw [← hc]
+        simp [WFImol, newRows_ids]
+        exact ⟨normPh_congr _ _ (mem_normPh _), List.nodup_range'⟩
+      | false =>
+        simp only [World.ctor, hf, hm, Bool.not_true, Bool.false_eq_true, if_false, Except.ok.injEq] at hc
+        rw [← hc]
+        simp [WFImol]
+  | setFlow s p c v =>
+    simp only [World.exec] at h
+    cases hc : w.setFlow s p c v with
+    | error e => simp [hc, Res.ofExcept] at h
+    | ok w1 =>
+      simp [hc, Res.ofExcept] at h
+      subst h
+      unfold World.setFlow at hc
+      cases hm : w.imols (w.strs s).imol with
+      | chem ph r =>
+        simp only [hm] at hc
+        split at hc
+        · cases hc
+        · cases hc; exact wfAll_of_struct_eq hwf rfl rfl (fun _ => rfl) rfl
+      | mat ps a =>
+        simp only [hm] at hc
+        split at hc
+        · cases hc
+        · split at hc
+          · cases hc
+          · cases hc; exact wfAll_of_struct_eq hwf rfl rfl (fun _ => rfl) rfl
+  | setT s v => simp only [World.exec] at h; cases h; exact wfAll_of_struct_eq hwf rfl rfl (fun _ => rfl) rfl
+  | setP s v => simp only [World.exec] at h; cases h; exact wfAll_of_struct_eq hwf rfl rfl (fun _ => rfl) rfl
+  | setPhase s p =>
+    simp only [World.exec] at h; cases h
+    have hs := hids s (by simp [Op.ids])
+    cases hm : w.imols (w.strs s).imol with
+    | chem ph r =>
+      simp only [World.setPhase, hm]
+      exact wfAll_of_struct_eq hwf rfl rfl (fun _ => rfl) rfl
+    | mat ps a =>
+      simp only [World.setPhase, hm]
+      intro j hj
+      simp at hj
+      by_cases hjs : j = s
+      · subst hjs; simp [WFImol]
+      · have hw : Writes w ((((w.newPh p).1.newRow fun c =>
+            List.foldl (fun x1 x2 => x1 + x2) 0 (List.map (fun r => w.rows r c) (w.arrs a))).1.newImol
+            (Imol.chem (w.newPh p).2 ((w.newPh p).1.newRow fun c =>
+            List.foldl (fun x1 x2 => x1 + x2) 0 (List.map (fun r => w.rows r c) (w.arrs a))).2)).1.setStr s
+            { w.strs s with imol := (((w.newPh p).1.newRow fun c =>
+            List.foldl (fun x1 x2 => x1 + x2) 0 (List.map (fun r => w.rows r c) (w.arrs a))).1.newImol
+            (Imol.chem (w.newPh p).2 ((w.newPh p).1.newRow fun c =>
+            List.foldl (fun x1 x2 => x1 + x2) 0 (List.map (fun r => w.rows r c) (w.arrs a))).2)).2 })
+            none' (· = s) :=
+          (writes_newPh w p).of_none.seq ((writes_newRow _ _).of_none.seq ((writes_newImol _ _).of_none.seq
+            ((writes_setStr _ s _).mono (fun x _ h => h.elim) (fun i _ h => by intros; exact h))))
+        apply wf_of_structFrame (StructFrame.of_writes hw) hsc j hj _ (hwf j hj)
+        rw [hw.strs j hj hjs]
+  | empty s =>
+    simp only [World.exec] at h; cases h
+    exact wfAll_of_struct_eq hwf (by simp [World.empty]) (by simp [World.empty]) (fun _ => by simp [World.empty])
+      (by simp [World.empty])
+  | setPrice s v =>
+    simp only [World.exec] at h; cases h
+    refine wfAll_of_struct_eq hwf rfl rfl (fun j => ?_) rfl
+    by_cases hj : j = s
+    · subst hj; simp [World.setPrice]
+    · simp [World.setPrice, upd_ne _ _ _ _ hj]
+  | setCF s k v => simp only [World.exec] at h; cases h; exact wfAll_of_struct_eq hwf rfl rfl (fun _ => rfl) rfl
+  | copy s =>
+    simp only [World.exec] at h; cases h
+    have hs := hids s (by simp [Op.ids])
+    apply wfAll_of_fresh hsc hwf (writes_copy w s) (copy_fresh w s).2.1
+    simp only [World.copy, pushStr_strs, upd_same, copyImol_nS, newTc_nS, newCf_nS]
+    have h0 : WFImol (w.newCf []).1 (w.strs s).imol := wf_congr (hwf s hs) (by simp) (by simp)
+    exact wf_congr (wf_copyImol _ _ h0) (by simp) (by simp)
+  | copyLike t s =>
+    simp only [World.exec] at h
+    exact wfAll_copyLike w t s w' hsc hwf (hids t (by simp [Op.ids])) (hids s (by simp [Op.ids])) h
+  | copyTC t s =>
+    simp only [World.exec] at h; cases h
+    exact wfAll_tcCopyLike t s hwf
+  | link t s f p tp =>
+    simp only [World.exec] at h
+    exact wfAll_link w t s f p tp w' hwf (hids t (by simp [Op.ids])) (hids s (by simp [Op.ids])) h
+  | unlink s =>
+    simp only [World.exec] at h; cases h
+    have hs := hids s (by simp [Op.ids])
+    intro j hj
+    have hnS : (w.unlink s).nS = w.nS := by simp [World.unlink]
+    rw [hnS] at hj
+    by_cases hjs : j = s
+    · subst hjs
+      simp only [World.unlink, setStr_strs, upd_same]
+      exact wf_congr (wf_copyImol _ _ (hwf j hj)) (by simp) (by simp)
+    · apply wf_of_structFrame (StructFrame.of_writes (writes_unlink w s)) hsc j hj _ (hwf j hj)
+      rw [(writes_unlink w s).strs j hj hjs]
+  | proxy s =>
+    simp only [World.exec] at h; cases h
+    have hs := hids s (by simp [Op.ids])
+    apply wfAll_of_fresh hsc hwf (writes_proxy w s) (by simp [World.proxy])
+    simp only [World.proxy, pushStr_strs, upd_same]
+    exact wf_congr (hwf s hs) (by simp) (by simp)
+  | flowProxy s =>
+    simp only [World.exec] at h; cases h
+    have hs := hids s (by simp [Op.ids])
+    have hnS : (w.flowProxy s).1.nS = w.nS + 1 := by
+      simp only [World.flowProxy]; cases hm : w.imols (w.strs s).imol <;> simp
+    apply wfAll_of_fresh hsc hwf (writes_flowProxy w s) hnS
+    have hws := hwf s hs
+    simp only [World.flowProxy]
+    cases hm : w.imols (w.strs s).imol with
+    | chem ph r => simp [WFImol]
+    | mat ps a =>
+      simp only [WFImol, hm] at hws
+      simp [WFImol]
+      have hne : w.next + 1 + 1 ≠ w.next := by omega
+      simpa using hws
+  | pickle s =>
+    simp only [World.exec] at h; cases h
+    obtain ⟨h1, _, h3, _, _⟩ := rebuild_spec w (w.pickleArgs s)
+    apply wfAll_of_fresh hsc hwf h1 h3
+    simp only [World.pickle, World.rebuild, World.rebuildTail, pushStr_strs, setTc_nS, setRowsSeq_nS]
+    have hB := rebuild_blank ((w.newCf (w.pickleArgs s).cf).1.newTc (defaultT, defaultP)).1
+      (w.pickleArgs s).data.phases
+    rw [hB.nS]
+    simp only [newTc_nS, newCf_nS, upd_same]
+    exact wf_congr (wf_blankFor _ _) (by simp) (by simp)
+
+theorem wfAll_run (ops : List Op) : ∀ w : World, Scoped w → WFAll w → WFAll (w.run ops) := by
+  induction ops with
+  | nil => intro w _ h; exact h
+  | cons op ops ih =>
+    intro w hsc h
+    simp only [World.run]
+    cases hst : w.step op with
+    | ok w' => exact ih w' (scoped_step w op w' hsc hst) (wfAll_step w op w' hsc h hst)
+    | skip => exact ih w hsc h
+    | err e => exact h
+
+
+
+/-- the observation of a stream whose slots, indexer structure, rows, phase value and (T, P) are the same -/
+theorem observe_eq_of {w w' : World} {s : Nat} (hstr : w'.strs s = w.strs s)
+    (himol : w'.imols (w.strs s).imol = w.imols (w.strs s).imol)
+    (harr : ∀ ps a, w.imols (w.strs s).imol = .mat ps a → w'.arrs a = w.arrs a)
+    (hph : ∀ ph r, w.imols (w.strs s).imol = .chem ph r → w'.phs ph = w.phs ph)
+    (hrows : ∀ r ∈ w.rowIdsOf (w.strs s).imol, w'.rows r = w.rows r)
+    (htc : w'.tcs (w.strs s).tc = w.tcs (w.strs s).tc) (hcf : w'.cfs (w.strs s).cf = w.cfs (w.strs s).cf) :
+    w'.observe s = w.observe s := by
+  have hri : w'.rowIdsOf (w.strs s).imol = w.rowIdsOf (w.strs s).imol := by
+    unfold World.rowIdsOf; rw [himol]
+    cases hm : w.imols (w.strs s).imol with
+    | chem ph r => rfl
+    | mat ps a => simp [harr ps a hm]
+  have hpo : w'.phasesOf (w.strs s).imol = w.phasesOf (w.strs s).imol := by
+    unfold World.phasesOf; rw [himol]
+    cases hm : w.imols (w.strs s).imol with
+    | chem ph r => simp [hph ph r hm]
+    | mat ps a => rfl
+  unfold World.observe
+  simp only [hstr, hri, hpo, htc, hcf]
+  congr 1
+  exact List.map_congr_left hrows
+
+/-- `copy_like` does not change its source (for streams that share no flow data) -/
+theorem copyLike_source (w : World) (t s : Nat) (w' : World) (hsc : Scoped w) (ht : t < w.nS) (hs : s < w.nS)
+    (hwt : WFImol w (w.strs t).imol) (hws : WFImol w (w.strs s).imol) (hap : Apart w t s) (hts : t ≠ s)
+    (h : w.copyLike t s = .ok w') : w'.observe s = w.observe s := by
+  have hScf := hsc s hs _ (mem_fp_cf w s)
+  -- the final `ThermalCondition.copy_like` leaves the source's (T, P) as they are
+  have tcfin : ∀ w1 : World, w1.strs s = w.strs s → w1.tcs = w.tcs →
+      (w1.tcCopyLike t s).tcs (w.strs s).tc = w.tcs (w.strs s).tc := by
+    intro w1 e1 e2
+    simp only [World.tcCopyLike, setTc_tcs, e1, e2]
+    by_cases hx : (w.strs s).tc = (w1.strs t).tc
+    · rw [hx]; simp
+    · exact upd_ne _ _ _ _ hx
+  unfold World.copyLike at h
+  simp only at h
+  split at h
+  · cases h
+  · cases hmt : w.imols (w.strs t).imol with
+    | chem tph trow =>
+      cases hms : w.imols (w.strs s).imol with
+      | chem sph srow =>
+        simp only [hmt, hms, hap.imol, if_false] at h
+        obtain ⟨w1, h1, rfl⟩ := ofExcept_bind_ok _ _ _ h
+        have hne : trow ≠ srow := by
+          have := hap.rows trow (by simp [World.rowIdsOf, hmt])
+          simpa [World.rowIdsOf, hms] using this
+        obtain ⟨v1, v2, v3, v4⟩ := chemCopyLike_value _ _ _ _ _ _ _ _ _ hne h1
+        obtain ⟨_, f1, f2, f3, _, _, f6, f7⟩ := chemCopyLike_spec _ _ _ _ _ _ _ _ _ h1
+        apply observe_eq_of (by simp [World.tcCopyLike, f3]) (by simp [World.tcCopyLike, f1])
+          (fun ps a hm => by simp [World.tcCopyLike, f2])
+        · intro ph r hm
+          rw [hms] at hm; cases hm
+          simp only [World.tcCopyLike, setTc_phs]
+          by_cases hp : sph = tph
+          · rw [hp]; rw [hp] at v2; exact v2
+          · exact v4 sph hp
+        · intro r hr
+          simp [World.rowIdsOf, hms] at hr; subst hr
+          simp only [World.tcCopyLike, setTc_rows]
+          exact v3 r (Ne.symm hne)
+        · exact tcfin w1 (by rw [f3]) f6
+        · simp [World.tcCopyLike, f7]
+      | mat qs sa =>
+        simp only [hmt, hms] at h
+        obtain ⟨hnq, hlenq, hndq⟩ : normPh qs = qs ∧ (w.arrs sa).length = qs.length ∧ (w.arrs sa).Nodup := by
+          simpa [WFImol, hms] using hws
+        split at h
+        · next q =>
+          obtain ⟨w1, h1, rfl⟩ := ofExcept_bind_ok _ _ _ h
+          have hl1 : (w.arrs sa).length = 1 := by simpa using hlenq
+          obtain ⟨sr, hsr⟩ : ∃ sr, w.arrs sa = [sr] := by
+            cases hra : w.arrs sa with
+            | nil => simp [hra] at hl1
+            | cons x xs =>
+              cases xs with
+              | nil => exact ⟨x, rfl⟩
+              | cons y ys => simp [hra] at hl1
+          have hne : trow ≠ sr := by
+            have := hap.rows trow (by simp [World.rowIdsOf, hmt])
+            simpa [World.rowIdsOf, hms, hsr] using this
+          have hsr' : ((w.setPh tph q).arrs sa).getD 0 0 = sr := by simp [hsr]
+          rw [hsr'] at h1
+          obtain ⟨v1, v2, v3, v4⟩ := chemCopyLike_value _ _ _ _ _ _ _ _ _ hne h1
+          obtain ⟨_, f1, f2, f3, _, _, f6, f7⟩ := chemCopyLike_spec _ _ _ _ _ _ _ _ _ h1
+          apply observe_eq_of (by simp [World.tcCopyLike, f3]) (by simp [World.tcCopyLike, f1])
+            (fun ps a hm => by simp [World.tcCopyLike, f2])
+          · intro ph r hm; rw [hms] at hm; cases hm
+          · intro r hr
+            simp [World.rowIdsOf, hms, hsr] at hr; subst hr
+            simp only [World.tcCopyLike, setTc_rows]
+            rw [v3 r (Ne.symm hne)]; simp
+          · exact tcfin w1 (by rw [f3]; simp) (by rw [f6]; simp)
+          · simp [World.tcCopyLike, f7]
+        · obtain ⟨w3, h3, rfl⟩ := ofExcept_bind_ok _ _ _ h
+          have hSim : (w.strs s).imol < w.next := hsc s hs _ (mem_fp_imol w s)
+          have hsa : sa < w.next := hsc s hs _ (mem_fp_mat hms).1
+          have hltq : ∀ r ∈ w.arrs sa, r < w.next := fun r hr => hsc s hs r ((mem_fp_mat hms).2 r hr)
+          unfold World.blankMat at h3
+          simp only [newImol_snd, newArr_snd, newArr_next, newRows_next, List.length_map] at h3
+          generalize hzs : ((normPh qs).map fun _ => Row.zero) = zs at h3
+          have hzl : zs.length = (normPh qs).length := by rw [← hzs]; simp
+          have hids := newRows_ids zs w
+          have hold := newRows_old w zs
+          generalize hnr : w.newRows zs = nr at h3 hids hold
+          obtain ⟨w1, rs⟩ := nr
+          simp only at h3 hids hold
+          have hn1 : w1.next = w.next + zs.length := by
+            have := newRows_next w zs; rw [hnr] at this; exact this
+          have himols1 : w1.imols = w.imols := by have := newRows_imols w zs; rw [hnr] at this; exact this
+          have harrs1 : w1.arrs = w.arrs := by have := newRows_arrs w zs; rw [hnr] at this; exact this
+          have hstrs1 : w1.strs = w.strs := by have := newRows_strs w zs; rw [hnr] at this; exact this
+          have htcs1 : w1.tcs = w.tcs := by have := newRows_tcs w zs; rw [hnr] at this; exact this
+          have hphs1 : w1.phs = w.phs := by have := newRows_phs w zs; rw [hnr] at this; exact this
+          have hcfs1 : w1.cfs = w.cfs := by have := newRows_cfs w zs; rw [hnr] at this; exact this
+          have hrs_mem : ∀ r ∈ rs, w.next ≤ r ∧ r < w.next + zs.length := by
+            intro r hr; rw [hids] at hr; exact mem_range'_lt hr
+          have hN : w1.next = w.next + (normPh qs).length := by rw [hn1, hzl]
+          obtain ⟨N, hNdef⟩ : ∃ N, N = w.next + (normPh qs).length := ⟨_, rfl⟩
+          rw [← hNdef] at h3 hN
+          have harne : N ≠ sa := by omega
+          have himne : N + 1 ≠ (w.strs s).imol := by omega
+          obtain ⟨W2, hW2⟩ : ∃ W2, W2 = ((w1.newArr rs).1.newImol (Imol.mat (normPh qs) N)).1.setStr t
+              { w.strs t with imol := N + 1 } := ⟨_, rfl⟩
+          rw [← hW2] at h3
+          have q1 : W2.imols (N + 1) = .mat (normPh qs) N := by rw [hW2]; simp [hN]
+          have q2 : W2.imols (w.strs s).imol = .mat qs sa := by
+            rw [hW2]; simp [hN, upd_ne _ _ _ _ (Ne.symm himne), himols1, hms]
+          have q3 : W2.arrs N = rs := by rw [hW2]; simp [hN]
+          have q4 : W2.arrs sa = w.arrs sa := by rw [hW2]; simp [hN, upd_ne _ _ _ _ (Ne.symm harne), harrs1]
+          have q5 : W2.next = N + 2 := by rw [hW2]; simp [hN]
+          have q6 : W2.rows = w1.rows := by rw [hW2]; simp
+          have q7 : W2.strs = upd w.strs t { w.strs t with imol := N + 1 } := by rw [hW2]; simp [hstrs1]
+          have q8 : W2.tcs = w.tcs := by rw [hW2]; simp [htcs1]
+          have q9 : W2.phs = w.phs := by rw [hW2]; simp [hphs1]
+          have q10 : W2.cfs = w.cfs := by rw [hW2]; simp [hcfs1]
+          obtain ⟨_, _, v3, v4, v5, v6, v7, v8, _⟩ := matCopyFromMat_value W2 _ (N + 1) _ _ _ w3
+            (normPh qs) qs N sa q1 q2 himne harne (normPh_congr _ _ (mem_normPh _))
+            (by rw [q3, hids]; simp [hzl])
+            (by rw [q3, hids]; exact List.nodup_range')
+            (by intro r hr; rw [q3] at hr; have := hrs_mem r hr; rw [q5]; omega) hnq
+            (by rw [q4]; exact hlenq)
+            (by intro r hr; rw [q4] at hr; have := hltq r hr; rw [q5]; omega)
+            (by
+              intro x hx hx2
+              rw [q3] at hx; rw [q4] at hx2
+              have := hrs_mem x hx; have := hltq x hx2; omega) h3
+          have hss : w3.strs s = w.strs s := by rw [v5, q7]; exact upd_ne _ _ _ _ (Ne.symm hts)
+          apply observe_eq_of (by simp [World.tcCopyLike, hss])
+          · simp only [World.tcCopyLike, setTc_imols]
+            rw [v7 _ (Ne.symm himne), q2, hms]
+          · intro ps a hm
+            rw [hms] at hm; cases hm
+            simp only [World.tcCopyLike, setTc_arrs]
+            rw [v8 _ (Ne.symm harne), q4]
+          · intro ph r hm; rw [hms] at hm; cases hm
+          · intro r hr
+            simp [World.rowIdsOf, hms] at hr
+            simp only [World.tcCopyLike, setTc_rows]
+            have hrl := hltq r hr
+            rw [v6 r (by rw [q5]; omega) (by rw [q3]; intro hm; have := hrs_mem r hm; omega), q6]
+            exact hold r hrl
+          · exact tcfin w3 hss (by rw [v4, q8])
+          · simp only [World.tcCopyLike, setTc_cfs]
+            rw [(matCopyFromMat_spec _ _ _ _ _ _ _ h3).cfs, q10]
+    | mat ps ta =>
+      obtain ⟨hnp, hlen, hnd⟩ : normPh ps = ps ∧ (w.arrs ta).length = ps.length ∧ (w.arrs ta).Nodup := by
+        simpa [WFImol, hmt] using hwt
+      have hlt : ∀ r ∈ w.arrs ta, r < w.next := fun r hr => hsc t ht r ((mem_fp_mat hmt).2 r hr)
+      -- both remaining branches end the same way
+      have fin : ∀ w1 : World, w1.phs = w.phs → w1.tcs = w.tcs → w1.strs = w.strs →
+          (∀ x, x < w.next → x ∉ w.arrs ta → w1.rows x = w.rows x) →
+          (∀ y, y ≠ (w.strs t).imol → w1.imols y = w.imols y) → (∀ y, y ≠ ta → w1.arrs y = w.arrs y) →
+          w1.cfs (w.strs s).cf = w.cfs (w.strs s).cf →
+          (w1.tcCopyLike t s).observe s = w.observe s := by
+        intro w1 v3 v4 v5 v6 v7 v8 v9
+        apply observe_eq_of (by simp [World.tcCopyLike, v5])
+          (by simp only [World.tcCopyLike, setTc_imols]; exact v7 _ (Ne.symm hap.imol))
+        · intro qs b hm
+          simp only [World.tcCopyLike, setTc_arrs]
+          exact v8 b (Ne.symm (hap.arr ps ta qs b hmt hm))
+        · intro ph r hm; simp [World.tcCopyLike, v3]
+        · intro r hr
+          simp only [World.tcCopyLike, setTc_rows]
+          apply v6 r (hsc s hs r (mem_fp_rowIds hr))
+          intro hmem
+          exact hap.rows r (by simp [World.rowIdsOf, hmt, hmem]) hr
+        · exact tcfin w1 (by rw [v5]) v4
+        · simp [World.tcCopyLike, v9]
+      cases hms : w.imols (w.strs s).imol with
+      | chem sph srow =>
+        simp only [hmt, hms] at h
+        obtain ⟨w1, h1, rfl⟩ := ofExcept_bind_ok _ _ _ h
+        have hsr : srow ∉ w.arrs ta := by
+          intro hmem
+          exact hap.rows srow (by simp [World.rowIdsOf, hmt, hmem]) (by simp [World.rowIdsOf, hms])
+        have hsrlt : srow < w.next := hsc s hs srow (mem_fp_chem hms).2
+        obtain ⟨_, _, v3, v4, v5, v6, v7, v8⟩ := matCopyFromChem_value w _ _ _ srow (w.phs sph) _ w1 ps ta hmt hnp
+          hlen hnd hlt hsr hsrlt h1
+        exact fin w1 v3 v4 v5 v6 v7 v8 (by rw [(matCopyFromChem_spec _ _ _ _ _ _ _ _ h1).cfs])
+      | mat qs sa =>
+        simp only [hmt, hms] at h
+        obtain ⟨w1, h1, rfl⟩ := ofExcept_bind_ok _ _ _ h
+        obtain ⟨hnq, hlenq, hndq⟩ : normPh qs = qs ∧ (w.arrs sa).length = qs.length ∧ (w.arrs sa).Nodup := by
+          simpa [WFImol, hms] using hws
+        have hltq : ∀ r ∈ w.arrs sa, r < w.next := fun r hr => hsc s hs r ((mem_fp_mat hms).2 r hr)
+        have hapr : ∀ x ∈ w.arrs ta, x ∉ w.arrs sa := by
+          intro x hx
+          have := hap.rows x (by simp [World.rowIdsOf, hmt, hx])
+          simpa [World.rowIdsOf, hms] using this
+        obtain ⟨_, _, v3, v4, v5, v6, v7, v8, _⟩ := matCopyFromMat_value w _ _ _ _ _ w1 ps qs ta sa hmt hms hap.imol
+          (hap.arr ps ta qs sa hmt hms) hnp hlen hnd hlt hnq hlenq hltq hapr h1
+        exact fin w1 v3 v4 v5 v6 v7 v8 (by rw [(matCopyFromMat_spec _ _ _ _ _ _ _ h1).cfs])
+
+
 end ThermoVerif.Links
